@@ -33,6 +33,8 @@ type Engine struct {
 	modCache map[*ssa.Function]*ModInfo
 	mu       sync.Mutex
 	globals  map[string]*globalInfo
+	tables   map[string]*TableInfo
+	frozen   map[string]bool
 	usedC    map[string]map[string]bool
 	usedX    map[string]map[string]bool
 	specErrs []string
@@ -76,8 +78,9 @@ func LoadEngine(repo string) (*Engine, error) {
 		}
 	}
 	e.Specs = LoadSpecs(repo, nil)
-	e.computeMods()
 	e.analyzeGlobals()
+	e.analyzeTables()
+	e.computeMods()
 	return e, nil
 }
 
@@ -220,7 +223,7 @@ func (e *Engine) structsUsed(text string) map[string]bool {
 }
 
 const anywfDef = `(define-fun anywf ((x Any) (w Int)) Bool (and
- (=> ((_ is a_map) x) (and (>= (a_m x) 0) (<= (a_m x) w)))
+ (=> ((_ is a_map) x) (and (>= (a_m x) 1) (<= (a_m x) w)))
  (=> ((_ is a_mapaa) x) (and (>= (a_maa x) 0) (<= (a_maa x) w)))
  (=> ((_ is a_list) x) (and (>= (s_ref (a_l x)) 0) (<= (s_ref (a_l x)) w) (>= (s_off (a_l x)) 0) (>= (s_len (a_l x)) 0) (<= (s_len (a_l x)) (s_cap (a_l x))) (=> (= (s_ref (a_l x)) 0) (= (s_cap (a_l x)) 0))))
  (=> ((_ is a_other) x) (>= (a_ty x) 1))))
